@@ -27,6 +27,9 @@ type loopInfo struct {
 	phiHavoc map[*ssa.Phi]Term
 	preState *State
 	measure  Term
+	// head heaps whose cells outside the root modifies clause were kept by the havoc; every
+	// back edge must show they are still unchanged there (the loop frame invariant).
+	frameHeads map[Sort]Term
 }
 
 type Frame struct {
@@ -389,6 +392,8 @@ func (fr *Frame) encodeBody(entry *State) error {
 				if first {
 					t = ev
 					first = false
+				} else if i < len(st.mergeSels) {
+					t = Ite(st.mergeSels[i], ev, t)
 				} else {
 					t = Ite(ins[i].reach, ev, t)
 				}
@@ -1569,10 +1574,19 @@ func (fr *Frame) enterLoop(li *loopInfo, pre *State, phis []*ssa.Phi, phiEntry m
 			sl = append(sl, string(s))
 		}
 		sort.Strings(sl)
+		allowed, allowedOK := vc.loopFrameAllowed()
+		outside := func(s Sort) string {
+			return fmt.Sprintf("(and (< (rid q!r) %s) (not (or %s false)))", vc.entryAlloc.S, joinTerms(allowed[s]))
+		}
 		for _, ss := range sl {
 			s := Sort(ss)
 			old := vc.heap(hs, s)
 			var nh Term
+			if allowedOK {
+				if li.frameHeads == nil {
+					li.frameHeads = map[Sort]Term{}
+				}
+			}
 			if !ef.unk[s] {
 				var conds []string
 				seen := map[string]bool{}
@@ -1591,10 +1605,19 @@ func (fr *Frame) enterLoop(li *loopInfo, pre *State, phis []*ssa.Phi, phiEntry m
 				if ef.fresh[s] {
 					conds = append(conds, fmt.Sprintf("(< (rid q!r) %s)", pre.alloc.S))
 				}
-				nh = vc.MixHeap(s, old, Term{fmt.Sprintf("(and %s true)", strings.Join(conds, " ")), SBool})
+				keep := fmt.Sprintf("(and %s true)", strings.Join(conds, " "))
+				if allowedOK {
+					keep = fmt.Sprintf("(or %s %s)", keep, outside(s))
+				}
+				nh = vc.MixHeap(s, old, Term{keep, SBool})
+			} else if allowedOK {
+				nh = vc.MixHeap(s, old, Term{outside(s), SBool})
 			} else {
 				// unknown targets: nothing preserved for this sort
 				nh = vc.Fresh("hl", heapSort(s))
+			}
+			if allowedOK {
+				li.frameHeads[s] = nh
 			}
 			hs.heaps[s] = nh
 			hs.touch(s)
@@ -1701,6 +1724,33 @@ func (fr *Frame) loopBackEdge(li *loopInfo, from *ssa.BasicBlock, st *State) err
 			}
 		}
 	}
+	if len(li.frameHeads) > 0 {
+		allowed, _ := vc.loopFrameAllowed()
+		var sl []string
+		for s := range li.frameHeads {
+			sl = append(sl, string(s))
+		}
+		sort.Strings(sl)
+		var parts []Term
+		for _, ss := range sl {
+			s := Sort(ss)
+			head, end := li.frameHeads[s], vc.heap(st, s)
+			if head.S == end.S {
+				continue
+			}
+			parts = append(parts, Term{fmt.Sprintf("(forall ((q!r Ref)) (=> (and (< (rid q!r) %s) (not (or %s false))) (= (select %s q!r) (select %s q!r))))",
+				vc.entryAlloc.S, joinTerms(allowed[s]), end.S, head.S), SBool})
+		}
+		if len(parts) > 0 {
+			key := fmt.Sprint(li.ordinal)
+			if li.spec != nil {
+				key = li.spec.Key
+			}
+			vc.addObl(&Obligation{Name: fr.oblName("loopframe", fmt.Sprintf("%s@%d", key, vc.ordinal("loopframe:"+fr.path+key))), Kind: "frame",
+				Reach: st.reach, Cond: And(parts...), Taint: st.taint, Pos: fr.pos(li.header.Instrs[0].Pos()),
+				Descr: "loop body changes no pre-existing location outside the modifies clause"})
+		}
+	}
 	if li.spec == nil {
 		return nil
 	}
@@ -1740,11 +1790,20 @@ func (fr *Frame) loopBackEdge(li *loopInfo, from *ssa.BasicBlock, st *State) err
 // state st with the given phi values.
 func (fr *Frame) loopEnv(li *loopInfo, st *State, phiVals map[*ssa.Phi]Term) *SpecEnv {
 	env := fr.baseEnv(st)
-	env.lookup = func(name string) (SpecVal, bool) {
+	phiLookup := func(name string) (SpecVal, bool) {
 		// 1. header phi with that source name
 		for phi, t := range phiVals {
 			if phi.Comment == name {
 				return SpecVal{T: t, Ty: phi.Type()}, true
+			}
+		}
+		// 1b. a source variable that the debug information maps to a header phi
+		// (range-over-int loops: the phi is called rangeint.iter, the variable i)
+		for _, d := range fr.dbg[name] {
+			if phi, ok := d.v.(*ssa.Phi); ok && !d.isAddr {
+				if t, ok := phiVals[phi]; ok {
+					return SpecVal{T: t, Ty: phi.Type()}, true
+				}
 			}
 		}
 		// 2. header phi of an enclosing loop
@@ -1763,6 +1822,17 @@ func (fr *Frame) loopEnv(li *loopInfo, st *State, phiVals map[*ssa.Phi]Term) *Sp
 					}
 				}
 			}
+		}
+		return SpecVal{}, false
+	}
+	env.shadow = phiLookup
+	env.shadowable = map[string]SpecVal{}
+	for k, v := range env.vars {
+		env.shadowable[k] = v
+	}
+	env.lookup = func(name string) (SpecVal, bool) {
+		if v, ok := phiLookup(name); ok {
+			return v, true
 		}
 		return fr.lookupLocal(name, li.header, st, li)
 	}
@@ -1884,4 +1954,42 @@ func (fr *Frame) baseEnv(st *State) *SpecEnv {
 		}
 	}
 	return env
+}
+
+func joinTerms(ts []Term) string {
+	var sb strings.Builder
+	for i, t := range ts {
+		if i > 0 {
+			sb.WriteByte(' ')
+		}
+		sb.WriteString(t.S)
+	}
+	return sb.String()
+}
+
+// loopFrameAllowed: the root contract's modifies clause as a per-sort predicate, usable as a
+// loop frame (kept by the havoc, re-proved at every back edge). Not usable for `modifies *`,
+// for clauses that do not resolve to address ranges, or for functions without a contract.
+func (vc *VC) loopFrameAllowed() (map[Sort][]Term, bool) {
+	if !vc.rootAllowedDone {
+		vc.rootAllowedDone = true
+		fc := vc.contract
+		if fc != nil && vc.rootFr != nil && !fc.ModifiesAll && fc.Kind != "lemma" {
+			usable := true
+			for _, m := range fc.Modifies {
+				if m.Kind == ECall {
+					usable = false // pointee(x) and other non-address forms
+				}
+			}
+			if usable {
+				if per, ok := vc.ctx.modifiesAllowed(vc, vc.rootFr, fc); ok {
+					vc.rootAllowed = per
+					if per == nil {
+						vc.rootAllowed = map[Sort][]Term{}
+					}
+				}
+			}
+		}
+	}
+	return vc.rootAllowed, vc.rootAllowed != nil
 }
